@@ -57,6 +57,8 @@ pub enum Op {
     Free,
     /// clean close, optional damage to index files, build + init / init_lazy
     Reopen { lazy: bool, remove_all_idx: bool, damage: Vec<Damage> },
+    /// `n` writes of `vlen` bytes issued concurrently (keys outside the queried pool, distinct timestamps)
+    Burst { n: u8, vlen: u32 },
     /// arm a one-shot failpoint: the `nth` matching file operation from now on fails
     Fail { kind: FailKind, on_index: bool, nth: u16, eio: bool, short: Option<u16> },
     /// run `victim` but drop its future after `k` resumptions
@@ -81,6 +83,7 @@ impl Op {
             Op::Fsync => "fsync",
             Op::Free => "free",
             Op::Reopen { .. } => "reopen",
+            Op::Burst { .. } => "burst",
             Op::Fail { .. } => "fail",
             Op::Cancel { .. } => "cancel",
         }
@@ -343,6 +346,7 @@ pub fn render_ops(ops: &[Op]) -> Vec<String> {
             Op::ForceUpdate(p) => format!("force_update({:?})", p),
             Op::Offload { level } => format!("offload(l{})", level),
             Op::Cancel { victim, k } => format!("cancel({} after {})", victim.name(), k),
+            Op::Burst { n, vlen } => format!("burst({}x{})", n, fmt_vlen(*vlen)),
             Op::Fail { kind, on_index, nth, eio, short } => format!("fail({:?},{},n={},{},short={:?})", kind, if *on_index { "index" } else { "blob" }, nth, if *eio { "EIO" } else { "ENOSPC" }, short),
             other => other.name().to_string(),
         })
